@@ -2076,6 +2076,9 @@ impl Interp {
             ("x-w2d", a) => self.op_ext_w2d(a), // ext w2d (single dispatch line)
             ("x-w2d-inject", a) => self.op_ext3_w2d(a), // ext3 w2d (single dispatch line)
             ("late-release", [ns]) => self.op_late_release(ns), // ext w2c (single dispatch line)
+            // several API calls in flight (C11 "several writers blocked at once"): tagged variants of w2c's pair
+            ("write-bg", a) if a.iter().any(|t| t.starts_with("tag=")) => self.op_bg_tagged(a),
+            ("join", [tag]) => self.op_join_tagged(tag),
             ("write-bg", a) | ("join", a) => self.op_bg(op, a), // ext2 w2c (single dispatch line)
             ("timers", []) => {
                 let v = sim::with(|w| std::mem::take(&mut w.timer_requests));
@@ -2454,6 +2457,61 @@ impl Interp {
     }
 }
 // ---- END ext3 w2d ----
+
+// Tagged background writes: ANY number of writes in flight at once (w2c's `write-bg` / `join` allow one).
+//   `write-bg <w> <id> <value> tag=<t> [ts=<ns>]`  starts the write like `write`, settles at the current virtual time and
+//        leaves the call pending under the tag `<t>` if it was not answered; answer `ok`.
+//   `join <t>`                                     waits (virtual time passes) for the answer of that call and prints it
+//        (`ok` / `err:<Kind>`); `bad-op` when no call with that tag is outstanding.
+thread_local! {
+    static BG_TAGGED: std::cell::RefCell<Vec<(String, BgFuture)>> = const { std::cell::RefCell::new(Vec::new()) };
+}
+impl Interp {
+    fn op_bg_tagged(&mut self, toks: &[&str]) -> Res {
+        let (plain, mut kv) = split_kv(toks);
+        let [name, id, val] = plain[..] else { return Err("usage: write-bg <writer> <id> <value> tag=<t> [ts=<ns>]".into()) };
+        let id: i32 = id.parse().map_err(|_| "bad id".to_string())?;
+        let tag = take_kv(&mut kv, "tag").ok_or("tag= missing")?.to_string();
+        let ts = take_kv(&mut kv, "ts").map(|v| v.parse::<i128>().map(time_at).map_err(|_| "bad ts".to_string())).transpose()?;
+        if !kv.is_empty() {
+            return Err(format!("unknown option {}", kv[0].0).into());
+        }
+        if BG_TAGGED.with(|c| c.borrow().iter().any(|(t, _)| *t == tag)) {
+            return Err(format!("a background call with tag {tag} is already outstanding").into());
+        }
+        let w = self.writer(name)?;
+        let val = val.to_string();
+        let mut fut: BgFuture = Box::pin(async move { each_w!(&w, d => do_write(d, WriteOp::Write, id, &val, ts, None).await) });
+        let flag = Arc::new(BgFlag(std::sync::atomic::AtomicBool::new(true)));
+        let waker = std::task::Waker::from(flag.clone());
+        let mut cx = std::task::Context::from_waker(&waker);
+        let mut done: Option<Result<String, String>> = None;
+        // poll whenever the call was woken (each poll may send the next mail), settle in between, never advance time
+        while flag.0.swap(false, std::sync::atomic::Ordering::SeqCst) {
+            if let std::task::Poll::Ready(v) = fut.as_mut().poll(&mut cx) {
+                done = Some(v);
+                break;
+            }
+            sim::settle().map_err(Fail::Stop)?;
+        }
+        sim::settle().map_err(Fail::Stop)?;
+        let fut: BgFuture = match done {
+            Some(v) => Box::pin(async move { v }), // answered at once: keep the answer for `join`
+            None => fut,
+        };
+        BG_TAGGED.with(|c| c.borrow_mut().push((tag, fut)));
+        Ok("ok".into())
+    }
+
+    fn op_join_tagged(&mut self, tag: &str) -> Res {
+        let fut = BG_TAGGED.with(|c| {
+            let mut v = c.borrow_mut();
+            v.iter().position(|(t, _)| t == tag).map(|i| v.remove(i).1)
+        });
+        let Some(fut) = fut else { return Err(format!("no call with tag {tag} is outstanding").into()) };
+        Ok(blk(fut)??)
+    }
+}
 
 // ---- BEGIN ext2 w2c
 // Two API calls in flight (needed for "the instance of a BLOCKED write is unregistered", C27): the scenario
